@@ -212,6 +212,16 @@ theorem instance_query_order_independent (net : Net) (deps : List Dep) (qs₁ qs
   have a₂ := WarnLemmas.runQs_ok net deps qs₂ _ h₂ (WarnLemmas.instOk_fresh net deps)
   rw [(WarnLemmas.runQ_ok net deps _ q hq a₁.2).1, (WarnLemmas.runQ_ok net deps _ q hq a₂.2).1]
 
+/-- The top-level statement with the rule btcd actually enforces on headers: on a network whose
+    window is at least 2, every history of queries about blocks whose chains obey the timestamp rule
+    is answered exactly as the Spec answers. -/
+theorem instance_history_eq_spec_of_timeRule (net : Net) (deps : List Dep) (qs : List Warn.Q)
+    (hW : 2 ≤ net.window) (hq : ∀ q ∈ qs, timeRule q.node = true) :
+    (Warn.runQs net (Warn.freshInst deps) qs).2 = qs.map (Warn.specAnswer net deps) :=
+  instance_history_eq_spec net deps qs (fun q h => ⟨hW, timeRule_implies_mtpMono _ (hq q h)⟩)
+
+example : timeRule [⟨2, 0x20000001, 1002⟩, ⟨1, 0x20000001, 1001⟩, ⟨0, 0x20000000, 1000⟩] = true := by decide
+
 /-! ### pins: constants and shipped tables regenerated from /repo -/
 open Generated.C14 in
 theorem pin_consts :
